@@ -5,7 +5,7 @@
 //! One JSON object per input line, one per output line. Deterministic apart from BLS encryption
 //! randomness (never observable in the output).
 use ant_networking::verif_hooks::{LocalSwarmCmd, NetworkSwarmCmd};
-use ant_networking::{GetRecordError, Network, NetworkError};
+use ant_networking::{GetRecordError, Network, NetworkBuilder, NetworkError};
 use ant_protocol::storage::{
     try_serialize_record, Chunk, ChunkAddress, RecordKind, Scratchpad, ScratchpadAddress,
 };
@@ -15,7 +15,8 @@ use autonomi::client::vault::VaultError;
 use autonomi::Client;
 use bytes::Bytes;
 use libp2p::identity::Keypair;
-use libp2p::kad::Record;
+use libp2p::kad::{self, GetRecordOk, PeerRecord, ProgressStep, QueryId, QueryResult, QueryStats, Record};
+use std::num::NonZeroUsize;
 use libp2p::PeerId;
 use rand::{Rng, SeedableRng};
 use serde::{Deserialize, Serialize};
@@ -88,7 +89,24 @@ fn pad_body(p: &Value) -> Vec<u8> {
     let counter = p["counter"].as_u64().unwrap();
     let plain = hx(&p["data"]);
     let encrypted: Vec<u8> = match p.get("enc_to").and_then(|v| v.as_u64()) {
-        Some(k) => sk(k).public_key().encrypt(&plain).to_bytes(),
+        Some(k) => {
+            // "ct_rank": encryption is randomised; re-encrypt until the ciphertext bytes sort high / low
+            // (first byte >= / < 0xa0), so that a case can fix how two versions' encrypted_data compare
+            let want = p.get("ct_rank").and_then(|r| r.as_str());
+            let mut ct = sk(k).public_key().encrypt(&plain).to_bytes();
+            for _ in 0..200 {
+                let ok = match want {
+                    Some("high") => ct[0] >= 0xa0,
+                    Some("low") => ct[0] < 0xa0,
+                    _ => true,
+                };
+                if ok {
+                    break;
+                }
+                ct = sk(k).public_key().encrypt(&plain).to_bytes();
+            }
+            ct
+        }
         None => plain.clone(), // not a ciphertext at all
     };
     let signature = match p["sig"]["t"].as_str().unwrap_or("none") {
@@ -181,7 +199,8 @@ fn mk_record(key: &libp2p::kad::RecordKey, value: Vec<u8>) -> Record {
 #[derive(Clone)]
 enum Script {
     Rec(Vec<u8>, KeySpec),
-    Err(String),
+    /// error kind and, for the variants that carry a record, the record the holders planted in it
+    Err(String, Option<(Vec<u8>, KeySpec)>),
     /// versions, and (optionally) which of them the map must yield first when iterated
     Split(Vec<(Vec<u8>, KeySpec)>, Option<usize>),
 }
@@ -194,7 +213,8 @@ fn script_keys(requested: &[u8], s: &Script) -> Vec<String> {
     };
     match s {
         Script::Rec(_, ks) => vec![one(ks)],
-        Script::Err(_) => vec![],
+        Script::Err(_, Some((_, ks))) => vec![one(ks)],
+        Script::Err(_, None) => vec![],
         Script::Split(vs, _) => vs.iter().map(|(_, ks)| one(ks)).collect(),
     }
 }
@@ -202,7 +222,10 @@ fn script_keys(requested: &[u8], s: &Script) -> Vec<String> {
 fn build_script(spec: &Value) -> Script {
     match spec["t"].as_str().unwrap() {
         "rec" | "raw" => Script::Rec(record_value(spec), key_spec(spec)),
-        "err" => Script::Err(spec["e"].as_str().unwrap().to_string()),
+        "err" => Script::Err(
+            spec["e"].as_str().unwrap().to_string(),
+            spec.get("rec").filter(|r| !r.is_null()).map(|r| (record_value(r), key_spec(r))),
+        ),
         "split" => Script::Split(
             spec["recs"].as_array().unwrap().iter().map(|r| (record_value(r), key_spec(r))).collect(),
             spec.get("first").and_then(|f| f.as_u64()).map(|f| f as usize),
@@ -216,21 +239,23 @@ fn build_script(spec: &Value) -> Script {
 fn reply_for(key: &libp2p::kad::RecordKey, s: &Script) -> (Reply, Vec<usize>) {
     match s {
         Script::Rec(v, ks) => (Ok(keyed(key, ks, v.clone())), vec![]),
-        Script::Err(e) => (
-            Err(match e.as_str() {
-                "NotFound" => GetRecordError::RecordNotFound,
-                "Timeout" => GetRecordError::QueryTimeout,
-                "KindMismatch" => GetRecordError::RecordKindMismatch,
-                "DoesNotMatch" => GetRecordError::RecordDoesNotMatch(mk_record(key, vec![1, 2, 3])),
-                "NotEnoughCopies" => GetRecordError::NotEnoughCopies {
-                    record: mk_record(key, vec![1, 2, 3]),
-                    expected: 3,
-                    got: 1,
-                },
-                other => panic!("err kind {other}"),
-            }),
-            vec![],
-        ),
+        Script::Err(e, carried) => {
+            let carried_rec = match carried {
+                Some((v, ks)) => keyed(key, ks, v.clone()),
+                None => mk_record(key, vec![1, 2, 3]),
+            };
+            (
+                Err(match e.as_str() {
+                    "NotFound" => GetRecordError::RecordNotFound,
+                    "Timeout" => GetRecordError::QueryTimeout,
+                    "KindMismatch" => GetRecordError::RecordKindMismatch,
+                    "DoesNotMatch" => GetRecordError::RecordDoesNotMatch(carried_rec),
+                    "NotEnoughCopies" => GetRecordError::NotEnoughCopies { record: carried_rec, expected: 3, got: 1 },
+                    other => panic!("err kind {other}"),
+                }),
+                vec![],
+            )
+        }
         Script::Split(vs, first) => {
             // HashMap iteration order depends on the map's random hasher keys: rebuild the map until
             // the requested version comes first (the case decides the order the client will see)
@@ -465,6 +490,147 @@ fn op_vault(rt: &tokio::runtime::Runtime, case: &Value) -> Value {
            "keys": script_keys(&asked_key, &script)})
 }
 
+
+/// which planted record (index into the case's `recs`) a record delivered by the network layer is
+fn planted_index(values: &[Vec<u8>], r: &Record) -> i64 {
+    values.iter().position(|v| *v == r.value).map(|i| i as i64).unwrap_or(-1)
+}
+
+fn abstract_reply(values: &[Vec<u8>], r: &Reply) -> Value {
+    match r {
+        Ok(rec) => json!({"t": "ok", "i": planted_index(values, rec), "key": hex::encode(rec.key.as_ref())}),
+        Err(GetRecordError::NotEnoughCopies { record, .. }) =>
+            json!({"t": "err", "e": "NotEnoughCopies", "i": planted_index(values, record), "key": hex::encode(record.key.as_ref())}),
+        Err(GetRecordError::RecordDoesNotMatch(record)) =>
+            json!({"t": "err", "e": "DoesNotMatch", "i": planted_index(values, record), "key": hex::encode(record.key.as_ref())}),
+        Err(GetRecordError::QueryTimeout) => json!({"t": "err", "e": "Timeout"}),
+        Err(GetRecordError::RecordKindMismatch) => json!({"t": "err", "e": "KindMismatch"}),
+        Err(GetRecordError::RecordNotFound) => json!({"t": "err", "e": "NotFound"}),
+        Err(GetRecordError::SplitRecord { result_map }) => {
+            let order: Vec<i64> = result_map.values().map(|(rec, _)| planted_index(values, rec)).collect();
+            let keys: Vec<String> = result_map.values().map(|(rec, _)| hex::encode(rec.key.as_ref())).collect();
+            json!({"t": "split", "order": order, "keys": keys})
+        }
+    }
+}
+
+/// Vault read answered ONE LAYER LOWER: the client's `GetNetworkRecord` command is handed to a real
+/// client-mode `SwarmDriver` (never polled, no networking) and the holders' answers arrive as
+/// synthetic kad `FoundRecord` progress events through the real `handle_kad_event`, i.e. through the
+/// real quorum accumulation (`accumulate_get_record_found`, `handle_get_record_finished`, ...).
+/// What the driver then delivers to the api caller is recorded (as indices of the planted records)
+/// and forwarded unchanged to the client.
+fn op_vault_kad(rt: &tokio::runtime::Runtime, case: &Value) -> Value {
+    let owner = sk(case["owner"].as_u64().unwrap_or(0));
+    let specs = case["recs"].as_array().unwrap();
+    let values: Vec<Vec<u8>> = specs.iter().map(record_value).collect();
+    let kspecs: Vec<KeySpec> = specs.iter().map(key_spec).collect();
+    let events = case["events"].as_array().unwrap().clone();
+    let want_key = hex::encode(
+        NetworkAddress::from_scratchpad_address(ScratchpadAddress::new(owner.public_key())).to_record_key().as_ref());
+    let peers: Vec<PeerId> = (0..16u8)
+        .map(|i| PeerId::from(Keypair::ed25519_from_bytes([i + 1; 32]).unwrap().public()))
+        .collect();
+    let mut observed: Vec<Value> = vec![];
+    let mut delivered: Vec<Vec<usize>> = vec![];
+    let mut asked: Vec<String> = vec![];
+    let (r1, r2) = rt.block_on(async {
+        let (_net, _evrx, mut driver) = NetworkBuilder::new(Keypair::ed25519_from_bytes([0xEE; 32]).unwrap(), true)
+            .build_client()
+            .expect("client-mode driver");
+        let me = driver.verif_self_peer_id();
+        let (cmd_tx, mut cmd_rx) = mpsc::channel::<NetworkSwarmCmd>(64);
+        let (local_tx, _local_rx) = mpsc::channel::<LocalSwarmCmd>(64);
+        let api_net = Network::new(cmd_tx, local_tx, me, Keypair::ed25519_from_bytes([0xEE; 32]).unwrap());
+        let client = Client::verif_new(api_net, Default::default());
+        tokio::select! {
+            r = async {
+                let a = client.fetch_and_decrypt_vault(&owner).await;
+                let b = client.get_or_create_scratchpad(&owner, 77).await;
+                (a, b)
+            } => r,
+            _ = async {
+                loop {
+                    let cmd = match cmd_rx.recv().await {
+                        Some(c) => c,
+                        None => { std::future::pending::<()>().await; unreachable!() }
+                    };
+                    let NetworkSwarmCmd::GetNetworkRecord { key, sender, cfg } = cmd else { continue };
+                    asked.push(hex::encode(key.as_ref()));
+                    let (tx, rx) = tokio::sync::oneshot::channel();
+                    let before: HashSet<QueryId> = driver.verif_pending_get_record().iter().map(|x| x.0).collect();
+                    let _ = driver.verif_handle_network_cmd(NetworkSwarmCmd::GetNetworkRecord { key: key.clone(), sender: tx, cfg });
+                    let qid = driver.verif_pending_get_record().iter().map(|x| x.0).find(|q| !before.contains(q));
+                    let mut fed = vec![];
+                    if let Some(id) = qid {
+                        let pending = |d: &ant_networking::SwarmDriver| d.verif_pending_get_record().iter().any(|x| x.0 == id);
+                        for (ei, ev) in events.iter().enumerate() {
+                            if !pending(&driver) {
+                                break;      // the query has produced its outcome: later answers are not received
+                            }
+                            fed.push(ei);
+                            let one = NonZeroUsize::new(ei + 1).unwrap();
+                            let (result, last) = match ev["e"].as_str().unwrap() {
+                                "found" => {
+                                    let j = ev["rec"].as_u64().unwrap() as usize;
+                                    (QueryResult::GetRecord(Ok(GetRecordOk::FoundRecord(PeerRecord {
+                                        peer: Some(peers[ev["peer"].as_u64().unwrap() as usize % peers.len()]),
+                                        record: keyed(&key, &kspecs[j], values[j].clone()),
+                                    }))), false)
+                                }
+                                "finished" => (QueryResult::GetRecord(Ok(GetRecordOk::FinishedWithNoAdditionalRecord {
+                                    cache_candidates: Default::default() })), true),
+                                "notfound" => (QueryResult::GetRecord(Err(kad::GetRecordError::NotFound {
+                                    key: key.clone(), closest_peers: vec![] })), true),
+                                "quorumfailed" => (QueryResult::GetRecord(Err(kad::GetRecordError::QuorumFailed {
+                                    key: key.clone(), records: vec![], quorum: NonZeroUsize::new(1).unwrap() })), true),
+                                _ => (QueryResult::GetRecord(Err(kad::GetRecordError::Timeout { key: key.clone() })), true),
+                            };
+                            let _ = driver.verif_handle_kad_event(kad::Event::OutboundQueryProgressed {
+                                id, result, stats: QueryStats::empty(), step: ProgressStep { count: one, last },
+                            });
+                        }
+                        if pending(&driver) {
+                            // a script without a terminating event: the query times out
+                            let _ = driver.verif_handle_kad_event(kad::Event::OutboundQueryProgressed {
+                                id,
+                                result: QueryResult::GetRecord(Err(kad::GetRecordError::Timeout { key: key.clone() })),
+                                stats: QueryStats::empty(),
+                                step: ProgressStep { count: NonZeroUsize::new(events.len() + 1).unwrap(), last: true },
+                            });
+                        }
+                    }
+                    delivered.push(fed);
+                    let reply: Reply = match rx.await {
+                        Ok(r) => r,
+                        Err(_) => Err(GetRecordError::QueryTimeout),
+                    };
+                    observed.push(abstract_reply(&values, &reply));
+                    let _ = sender.send(reply);
+                }
+            } => unreachable!(),
+        }
+    });
+    let key_ok = asked.len() == 2 && asked.iter().all(|k| *k == want_key);
+    let fetch = match r1 {
+        Ok((data, enc)) => json!({"res": "ok", "data": hex::encode(&data), "encoding": enc}),
+        Err(e) => json!({"res": "err", "code": vault_err_code(&e)}),
+    };
+    let pad = match r2 {
+        Ok((p, is_new)) => json!({"res": "ok", "is_new": is_new, "counter": p.count(), "valid": p.is_valid(),
+                                   "owner_ok": p.owner() == &owner.public_key(), "encoding": p.data_encoding(),
+                                   "plain": p.decrypt_data(&owner).ok().map(hex::encode)}),
+        Err(e) => json!({"res": "err", "code": format!("{e:?}").split('(').next().unwrap_or("").to_string()}),
+    };
+    let asked_key = hex::decode(&want_key).unwrap();
+    let keys: Vec<String> = kspecs.iter().map(|ks| match ks {
+        KeySpec::Requested => hex::encode(&asked_key),
+        KeySpec::Bytes(b) => hex::encode(b),
+    }).collect();
+    json!({"fetch": fetch, "pad": pad, "key_ok": key_ok, "asked_key": want_key, "keys": keys,
+           "observed": observed, "delivered": delivered})
+}
+
 fn fill(case: &Value) -> Vec<u8> {
     if let Some(h) = case.get("hex").and_then(|h| h.as_str()) {
         return hex::decode(h).unwrap();
@@ -649,6 +815,7 @@ fn run(rt: &tokio::runtime::Runtime, case: &Value) -> Value {
     match case["op"].as_str().unwrap_or("") {
         "chunk_get" => op_chunk_get(rt, case),
         "vault" => op_vault(rt, case),
+        "vault_kad" => op_vault_kad(rt, case),
         "data" => op_data(rt, case),
         "probe_level" => op_probe_level(case),
         other => json!({"error": format!("unknown op {other}")}),
